@@ -13,11 +13,13 @@
    External behaviour enters as Section variables (universally quantified in every theorem):
      value        the type of Excellent values (types.XValue)
      eval_tpl     run.EvaluateTemplateValue: template text |-> value, "an error event was logged", number of warnings
-     to_xtext     types.ToXText: None = the value is an XError (Go then uses the empty text); nil |-> Some ""
+     to_xtext     types.ToXText: None = it fails - the value is an XError, or its rendering exceeds MaxRenderSize -
+                  (Go then uses the empty text); nil |-> Some ""
      registered   cases.XTESTS[strings.ToLower(type)] != nil
      test         XFunction.Call of the registered test on operand :: arguments
      lc           the run's localisation context (contact language, allowed languages, flow base language)
-     max_result_chars   engine option MaxResultChars
+     max_result_chars   engine option MaxResultChars (cut of the saved VALUE, run.SaveResult)
+     max_template_chars engine option MaxTemplateChars (cut of the saved INPUT, routeVia; negative = 0)
    Localisation is model/Lang.v (property C18): case_arguments, category_localized.
 
    UUIDs are numbers, 0 is the empty string.  No proofs in this file. *)
@@ -85,6 +87,28 @@ Fixpoint txt_eqb (a b : text) : bool :=
 (* stringsx.Truncate(s, limit): the first limit runes when longer *)
 Definition truncate (limit : nat) (t : text) : text :=
   if Nat.leb (length t) limit then t else firstn limit t.
+
+(* utils.TruncateEllipsis(s, limit): a limit too small for the ellipsis just cuts; otherwise the first limit-3 runes
+   and "..." when longer *)
+Definition truncate_ellipsis (limit : nat) (t : text) : text :=
+  if Nat.ltb limit 3 then truncate limit t
+  else if Nat.leb (length t) limit then t else firstn (limit - 3) t ++ [46; 46; 46].
+
+(* len() of the UTF-8 encoding *)
+Definition utf8_len1 (c : N) : N :=
+  if N.ltb c 128 then 1 else if N.ltb c 2048 then 2 else if N.ltb c 65536 then 3 else 4.
+
+Fixpoint utf8_len (t : text) : N :=
+  match t with [] => 0 | c :: rest => utf8_len1 c + utf8_len rest end.
+
+(* routeVia: a marshalled extra of resultExtraMaxBytes (10000) bytes or more is not kept *)
+Definition result_extra_max_bytes : N := 10000.
+
+Definition bound_extra (x : option text) : option text :=
+  match x with
+  | Some j => if N.leb result_extra_max_bytes (utf8_len j) then None else Some j
+  | None => None
+  end.
 
 (* the loop of routeToCategory: first category with the UUID *)
 Fixpoint find_category (cats : list category) (u : uuid) : option category :=
@@ -173,6 +197,7 @@ Variable registered : test_id -> bool.
 Variable test : test_id -> value -> list value -> test_result.
 Variable lc : lctx.
 Variable max_result_chars : nat.
+Variable max_template_chars : nat.
 
 (* events logged by one EvaluateTemplateValue call: the error first, then the warnings *)
 Definition tpl_events (e : bool * nat) : list event :=
@@ -253,7 +278,7 @@ Definition route_via (b : base_router) (prev : option result) (c : category)
                   r_category := c_name c;
                   r_category_localized :=
                     category_localized (lc_contact lc) (lc_allowed lc) (lc_base lc) (c_tr_name c);
-                  r_input := operand; r_extra := extra |} in
+                  r_input := truncate_ellipsis max_template_chars operand; r_extra := bound_extra extra |} in
       {| ro_res := RExit (c_exit c) operand; ro_saved := Some r;
          ro_events := evs ++ (if result_changed prev r then [EvResultChanged r] else []) |}
   end.
